@@ -26,6 +26,12 @@ PC = os.path.join(REPO, 'core', 'src', 'pixelcolor')
 def die(msg):
     sys.stderr.write('gen_colors.py: ' + msg + '\n')
     print('gen_colors.py: ' + msg)
+    # fail closed: never leave tables of an earlier tree behind (the theorems would be re-checked against stale rows)
+    for f in ('ColorTable.v', 'ColorConsts.v'):
+        try:
+            os.remove(os.path.join(GEN, f))
+        except OSError:
+            pass
     sys.exit(1)
 
 
